@@ -190,23 +190,27 @@ static int walk(const DT &t, const DV &v, feat &f)
     }
     return 0;
 }
+static void tag1(out &o, const char *t)
+{
+    if (("," + o.tags + ",").find(std::string(",") + t + ",") == std::string::npos) o.tag(t);
+}
 static void tag_value(const DT &t, const DV &v, out &o)
 {
     feat f;
     int d = walk(t, v, f);
-    if (f.empty) o.tag("empty-container");
-    if (f.nul) o.tag("embedded-nul");
-    if (f.nan) o.tag("nan");
-    if (f.neg) o.tag("negative");
-    if (f.l255) o.tag("len255");
-    if (f.l256) o.tag("len256");
-    if (f.l65535) o.tag("len65535");
-    if (f.big) o.tag("image>=65536");
-    if (f.map) o.tag("map");
-    if (f.ustruct) o.tag("user-type");
-    if (f.vecobj) o.tag("vector-of-objects");
-    if (d >= 3) o.tag("depth3");
-    else if (d == 2) o.tag("depth2");
+    if (f.empty) tag1(o, "empty-container");
+    if (f.nul) tag1(o, "embedded-nul");
+    if (f.nan) tag1(o, "nan");
+    if (f.neg) tag1(o, "negative");
+    if (f.l255) tag1(o, "len255");
+    if (f.l256) tag1(o, "len256");
+    if (f.l65535) tag1(o, "len65535");
+    if (f.big) tag1(o, "image>=65536");
+    if (f.map) tag1(o, "map");
+    if (f.ustruct) tag1(o, "user-type");
+    if (f.vecobj) tag1(o, "vector-of-objects");
+    if (d >= 3) tag1(o, "depth3");
+    else if (d == 2) tag1(o, "depth2");
 }
 
 // all scalar bits / string bytes complemented, same shape (stale-memory poison)
@@ -357,7 +361,8 @@ static void op_trunc(const std::string &desc, const std::string &val, const std:
         else if (r1 != rr) o.fail("truncated at " + std::to_string(k) + ": decoded value is not a function of the supplied bytes (expected " + (rr.size() < 80 ? rr : rr.substr(0, 80) + "...") + ", got " + (r1.size() < 80 ? r1 : r1.substr(0, 80) + "...") + ")");
         if (c1 > k) o.fail("reader position beyond the supplied bytes");
         if (k == enc.size() && r1 != val) o.fail("full input does not decode to v");
-        if (k < enc.size()) o.tag("truncated");
+        if (k < enc.size()) tag1(o, "truncated");
+        if (k < enc.size() && k > 0 && dt.k == DT::VEC && k == 1) tag1(o, "count-half-read");
     }
 }
 
@@ -604,7 +609,7 @@ static void gen(rng &r, const std::string &tier)
             }
     }
     // (3) random values of every type of both families
-    int reps = th ? 120 : 14;
+    int reps = th ? 300 : 14;
     for (auto &d : fa)
     {
         DT t;
@@ -630,7 +635,7 @@ static void gen(rng &r, const std::string &tier)
         }
     }
     // (4) several values through one writer / one reader
-    for (int i = 0; i < (th ? 400 : 50); i++)
+    for (int i = 0; i < (th ? 1200 : 50); i++)
     {
         bool a = i % 2 == 0;
         auto &fam = a ? fa : fs;
@@ -727,7 +732,7 @@ static void gen(rng &r, const std::string &tier)
     // (6) recorded-style byte strings through the readers: maps whose wire order
     //     is not the key order / has repeated keys (std::map::insert semantics),
     //     and arbitrary small inputs to the bounded reader
-    for (int i = 0; i < (th ? 300 : 40); i++)
+    for (int i = 0; i < (th ? 800 : 40); i++)
     {
         const char *ds[] = {"M(u8,u8)", "M(i8,u8)", "M(str,i32)", "M(P(u8,i8),str)", "M(i32,str)"};
         const char *d = ds[r.below(5)];
@@ -742,7 +747,7 @@ static void gen(rng &r, const std::string &tier)
         for (auto &x : es) { ref_enc(t.kids[0], x.kids[0], e); ref_enc(t.kids[1], x.kids[1], e); }
         printf("da %s %s\n", d, hex(e).c_str());
     }
-    for (int i = 0; i < (th ? 600 : 80); i++)
+    for (int i = 0; i < (th ? 2000 : 80); i++)
     {
         const std::string &d = fs[r.below(fs.size())];
         size_t n = r.below(25);
